@@ -140,6 +140,31 @@ fn gen_name(e: &mut Entropy, used: &[String]) -> String {
     format!("name-{}", used.len())
 }
 
+fn gen_name_legacy(e: &mut Entropy, used: &[String]) -> String {
+    for attempt in 0..6 {
+        let n = match e.weighted(&[4, 3, 2]) {
+            0 => 1 + e.choose(12),
+            1 => 13 + e.choose(20),
+            _ => 30 + e.choose(31),
+        };
+        let s: String = (0..n)
+            .map(|_| match e.weighted(&[8, 2, 1, 1]) {
+                0 => (b'a' + e.choose(26) as u8) as char,
+                1 => *e.pick(&['.', '-', '_', '0', '9', 'Z']),
+                2 => (33 + e.choose(94) as u8) as char,
+                _ => *e.pick(&['é', 'ü', '世', 'λ']),
+            })
+            .collect();
+        if !used.contains(&s) && s != "testserver.com" && s != "google.com" {
+            return s;
+        }
+        if attempt == 5 {
+            return format!("{s}-{}", used.len());
+        }
+    }
+    format!("name-{}", used.len())
+}
+
 impl Check for DnsResolution {
     fn id(&self) -> &'static str {
         "C20"
@@ -154,6 +179,34 @@ impl Check for DnsResolution {
         700
     }
     fn run(&self, e: &mut Entropy, ctx: &mut Ctx) -> Result<(), Failure> {
+        // files written before the generator was extended decode as they did then
+        let (names, records, lookups, total, nrec, nclients, delays) = if ctx.legacy_layout {
+        let nrec = 1 + e.choose(6);
+        let mut names: Vec<String> = vec![];
+        let mut records: Vec<(String, [u8; 4])> = vec![("testserver.com".into(), [123, 45, 67, 15]), ("google.com".into(), [123, 45, 67, 60])];
+        for _ in 0..nrec {
+            let n = gen_name_legacy(e, &names);
+            names.push(n.clone());
+            records.push((n, e.u32().to_be_bytes()));
+        }
+        let nclients = 1 + e.choose(6);
+        let mut lookups: Vec<Vec<Lookup>> = vec![];
+        let mut id = 0;
+        for _ in 0..nclients {
+            let k = 1 + e.choose(5);
+            let mut v: Vec<Lookup> = vec![];
+            for j in 0..k {
+                let name = if j > 0 && e.chance(2, 5) { v[e.choose(j)].name.clone() } else { records[e.choose(records.len())].0.clone() };
+                v.push(Lookup { id, name, at_ms: e.choose(50) as u64, sequential: j > 0 && e.bool() });
+                id += 1;
+            }
+            lookups.push(v);
+        }
+        let total = id;
+        let delays: Vec<u64> = (0..12).map(|_| *e.pick(&[0u64, 0, 1, 4, 11, 30])).collect();
+
+            (names, records, lookups, total, nrec, nclients, delays)
+        } else {
         // plan first (record count, who looks up which record when, delays), names last: long names eat entropy
         let nrec = 1 + e.choose(6);
         let nclients = 1 + e.choose(6);
@@ -192,6 +245,8 @@ impl Check for DnsResolution {
         }
         let total = id;
 
+            (names, records, lookups, total, nrec, nclients, delays)
+        };
         let wire = Wire::new();
         let dl = delays.clone();
         wire.set_planner(Box::new(move |f, earlier| if f.proto == Proto::Ipv4 { Decision { drop: false, delay_ms: dl[earlier.len() % dl.len()], copies: vec![] } } else { Decision::default() }));
